@@ -228,8 +228,15 @@ let parse_sel s =
   | _ -> failwith ("bad sel " ^ s)
 
 (* one script line -> spec operations *)
+(* a trailing "keep:X,Y" (handles captured, not read, by the user function) has no meaning for the specification *)
+let strip_keep (w : string list) : string list * string list =
+  match List.rev w with
+  | last :: rest when String.length last > 5 && String.sub last 0 5 = "keep:" ->
+    (List.rev rest, String.split_on_char ',' (String.sub last 5 (String.length last - 5)))
+  | _ -> (w, [])
+
 let ops_of_line env line : op list =
-  let w = split_ws line in
+  let (w, _) = strip_keep (split_ws line) in
   let n8 h j = nat_of_int (8 * int_of_string h + j) in
   let fresh h = env.alias <- List.remove_assoc (int_of_string h) env.alias in
   match w with
@@ -623,34 +630,35 @@ let oname_str = function
 exception Unsupported of string
 
 let hops_of_line (line : string) : hop list =
-  let w = split_ws line in
+  let (w, keeps) = strip_keep (split_ws line) in
+  let keeps = List.map (fun x -> nat_of_int (int_of_string x)) keeps in
   let n x = nat_of_int (int_of_string x) in
   let nofun f = if String.length f >= 4 && String.sub f 0 4 = "sel:" then raise (Unsupported "function capturing handles") in
   match w with
-  | ["sink"; h] -> [HDef (n h, PSink, [])]
-  | ["sink_co"; h; _] -> [HDef (n h, PSinkCo, [])]
-  | ["never"; h] -> [HDef (n h, PNever, [])]
-  | ["csink"; h; _] -> [HDef (n h, PCSink, [])]
-  | ["const"; h; _] -> [HDef (n h, PConst, [])]
-  | ["map"; h; s; f] -> nofun f; [HDef (n h, PMap, [n s])]
-  | ["map_to"; h; s; _] -> [HDef (n h, PMap, [n s])]
-  | ["filter"; h; s; _] -> [HDef (n h, PFilter, [n s])]
-  | ["filter_opt"; h; s] -> [HDef (n h, PFilterOpt, [n s])]
-  | ["merge"; h; a; b; _] | ["or_else"; h; a; b] -> [HDef (n h, PMerge, [n a; n b])]
-  | "snapshot" :: h :: s :: _ :: cs when cs <> [] -> [HDef (n h, PSnapshot, n s :: List.map n cs)]
-  | ["snapshot1"; h; s; c] -> [HDef (n h, PSnapshot, [n s; n c])]
-  | ["gate"; h; s; c] -> [HDef (n h, PGate, [n s; n c])]
-  | ["hold"; h; s; _] -> [HDef (n h, PHold, [n s])]
+  | ["sink"; h] -> [HDef (n h, PSink, [], [])]
+  | ["sink_co"; h; _] -> [HDef (n h, PSinkCo, [], [])]
+  | ["never"; h] -> [HDef (n h, PNever, [], [])]
+  | ["csink"; h; _] -> [HDef (n h, PCSink, [], [])]
+  | ["const"; h; _] -> [HDef (n h, PConst, [], [])]
+  | ["map"; h; s; f] -> nofun f; [HDef (n h, PMap, [n s], keeps)]
+  | ["map_to"; h; s; _] -> [HDef (n h, PMap, [n s], keeps)]
+  | ["filter"; h; s; _] -> [HDef (n h, PFilter, [n s], keeps)]
+  | ["filter_opt"; h; s] -> [HDef (n h, PFilterOpt, [n s], [])]
+  | ["merge"; h; a; b; _] | ["or_else"; h; a; b] -> [HDef (n h, PMerge, [n a; n b], keeps)]
+  | "snapshot" :: h :: s :: _ :: cs when cs <> [] -> [HDef (n h, PSnapshot, n s :: List.map n cs, keeps)]
+  | ["snapshot1"; h; s; c] -> [HDef (n h, PSnapshot, [n s; n c], keeps)]
+  | ["gate"; h; s; c] -> [HDef (n h, PGate, [n s; n c], [])]
+  | ["hold"; h; s; _] -> [HDef (n h, PHold, [n s], [])]
   | ["updates"; h; c] -> [HUpdates (n h, n c)]
-  | ["value"; h; c] -> [HDef (n h, PValue, [n c])]
-  | ["map_c"; h; c; f] -> nofun f; [HDef (n h, PMapC, [n c])]
-  | "lift" :: h :: _ :: cs when List.length cs >= 2 -> [HLift (n h, List.map n cs)]
-  | ["accum"; h; s; _; _] -> [HDef (n h, PAccum, [n s])]
-  | ["collect"; h; s; _; _; _] -> [HDef (n h, PCollect, [n s])]
-  | ["defer"; h; s] -> [HDef (n h, PDefer, [n s])]
-  | ["split"; h; s] -> [HDef (n h, PSplit, [n s])]
-  | ["sloop"; h] -> [HDef (n h, PSLoop, [])]
-  | ["cloop"; h] -> [HDef (n h, PCLoop, [])]
+  | ["value"; h; c] -> [HDef (n h, PValue, [n c], [])]
+  | ["map_c"; h; c; f] -> nofun f; [HDef (n h, PMapC, [n c], keeps)]
+  | "lift" :: h :: _ :: cs when List.length cs >= 2 -> [HLift (n h, List.map n cs, keeps)]
+  | ["accum"; h; s; _; _] -> [HDef (n h, PAccum, [n s], keeps)]
+  | ["collect"; h; s; _; _; _] -> [HDef (n h, PCollect, [n s], keeps)]
+  | ["defer"; h; s] -> [HDef (n h, PDefer, [n s], [])]
+  | ["split"; h; s] -> [HDef (n h, PSplit, [n s], [])]
+  | ["sloop"; h] -> [HDef (n h, PSLoop, [], [])]
+  | ["cloop"; h] -> [HDef (n h, PCLoop, [], [])]
   | ["sloop_close"; l; t] | ["cloop_close"; l; t] -> [HLoop (n l, n t)]
   | ["listen"; l; s] -> [HListen (n l, n s, true)]
   | ["listen_weak"; l; s] -> [HListen (n l, n s, false)]
